@@ -78,6 +78,13 @@ def add_history(rng, case, ngeo):
     return case
 
 
+def cost_proxy(case):
+    """rough size of the exact model's work on a basis-level case: sum over shell pairs of Ka Kb Ma Mb (la+lb+1)^3"""
+    b = case["basis"]
+    return sum(len(x["exps"]) * len(y["exps"]) * len(x["coeffs"][0]) * len(y["coeffs"][0]) * (x["l"] + y["l"] + 1) ** 3
+               for i, x in enumerate(b) for y in b[i:])
+
+
 HISTORY_NOTE = ("sequence of calls in one process: the same shells (exponents, coefficients, types, atom indices "
                 "icenter) at the geometries of case['hist'] in turn, then the first geometry again; every call is "
                 "compared with the exact model AT ITS OWN geometry")
@@ -109,6 +116,18 @@ def run_history(case, basis0, eval_at):
     return None, stats
 
 
+class _Memo:
+    """the model co-process with the answers of this case remembered (the exact model is a function of the command)"""
+
+    def __init__(self, model):
+        self.model, self.memo = model, {}
+
+    def call(self, cmd):
+        if cmd not in self.memo:
+            self.memo[cmd] = self.model.call(cmd)
+        return self.memo[cmd]
+
+
 def make_eval(kernel):
     def eval_case(model, case):
         kind = case["kind"]
@@ -127,6 +146,7 @@ def make_eval(kernel):
             nontriv = bool(np.any(implr != 0)) and (sa.l + sb.l > 0 or len(sa.exps) > 1 or len(sb.exps) > 1)
             return {"detail": d, "nontrivial": nontriv, "tag": tag}
         if kind == "basis":
+            model = _Memo(model)       # a tolerance rule may ask for the very command that is being compared
             basis0 = [XShell.from_json(s) for s in case["basis"]]
             T = case.get("T")
             Tq = None if T is None else [[Fraction(x) for x in row] for row in T]
@@ -341,7 +361,9 @@ def gen_cases(tier, seed, salt, lmax_block=5, lmax_basis=3, extra=None, nb_quick
             c["T"] = [[str(x) for x in row] for row in gen_transform(rng, nr, nf)]
         if extra:
             c.update(extra(rng, "basis", basis))
-        if hist_every and (i // 4 + i) % hist_every == 1:        # all of n = 1..4, with and without T
-            add_history(hrng, c, 1 + (i // 3) % 2)
+        # all of n = 1..4; with a transform only n <= 2 and one further geometry (the exact model of a transformed
+        # 3-4 shell basis is the most expensive case of the quick tier: a scan of it would set the wall time)
+        if hist_every and (i // 4 + i) % hist_every == 1 and (c["T"] is None or n <= 2):
+            add_history(hrng, c, 1 if c["T"] is not None else 1 + (i // 3) % 2)
         cases.append(c)
     return cases
